@@ -159,9 +159,6 @@ def sanitize (tok : Str) : Str :=
     | none => tok
   | _ => tok
 
-def pathOf (gs : List Seg) : XPath :=
-  { path := gs.flatMap Seg.render, segments := gs.map Seg.text }
-
 def classify (x : Ext) (op : MOp) (tok : Str) : Option MatchValue :=
   let sv := sanitize tok
   match op with
@@ -176,14 +173,34 @@ def classify (x : Ext) (op : MOp) (tok : Str) : Option MatchValue :=
   | .rex => if x.rxOk sv then some (.regex sv) else none
   | _ => (numParse x.fparse sv).map MatchValue.num
 
-/-- `Match::from_str` (`MatchParser::parse_input`): ordered choice direct | indirect | rule -/
-def parseMatch (x : Ext) (s : Str) : Option Match :=
+inductive MatchParse where
+  | ok (m : Match)
+  | err
+  | panic
+  deriving DecidableEq, Repr
+
+/-- `Match::from_str` (`MatchParser::parse_input`): ordered choice direct | indirect | rule.
+    The span matched by `field_path` is parsed again by `XPath::from_str`: with `.unwrap()` in
+    `DirectMatch::from_str` (a panic site), with `?` in `IndirectMatch::from_str`. -/
+def parseMatch (x : Ext) (s : Str) : MatchParse :=
   match parseDirect s with
-  | some (gs, op, tok) => (classify x op tok).map (fun v => .direct (pathOf gs) op v)
+  | some (gs, op, tok) =>
+    match XPath.parse (gs.flatMap Seg.render) with
+    | none => .panic
+    | some p =>
+      match classify x op tok with
+      | some v => .ok (.direct p op v)
+      | none => .err
   | none =>
     match parseIndirect s with
-    | some (gs, hs) => some (.indirect (pathOf gs) (pathOf hs))
-    | none => (parseRuleMatch s).map Match.rule
+    | some (gs, hs) =>
+      match XPath.parse (gs.flatMap Seg.render), XPath.parse (hs.flatMap Seg.render) with
+      | some p, some q => .ok (.indirect p q)
+      | _, _ => .err
+    | none =>
+      match parseRuleMatch s with
+      | some n => .ok (.rule n)
+      | none => .err
 
 /-! ### evaluation -/
 
